@@ -17,6 +17,21 @@ def has_bracket(t):
     return any(has_bracket(c) for c in (t[1] if t[0] in ("seq", "par") else t[2]))
 
 
+def any_gate(t):
+    if t[0] == "gate":
+        return True
+    return any(any_gate(c) for c in (t[1] if t[0] in ("seq", "par") else t[2]))
+
+
+def zero_loop_with_bracket(t):
+    """a loop whose count is 0 contains prepare/measure/subcircuit: results for it are not defined by C12"""
+    if t[0] == "gate":
+        return False
+    if t[0] == "loop" and int(t[1]) == 0 and has_bracket(t):
+        return True
+    return any(zero_loop_with_bracket(c) for c in (t[1] if t[0] in ("seq", "par") else t[2]))
+
+
 def unroll(t):
     if t[0] == "gate":
         yield t
@@ -72,7 +87,8 @@ def ref_subcircuits(tree):
             n = int(t[1])
             if not has_bracket(t):
                 if state["cur"] is None:
-                    if any(True for _ in unroll(("seq", t[2]))):
+                    # acceptance reads the program in flat order, ignoring loop counts
+                    if any_gate(t):
                         raise Rejected("gate outside prepare/measure")
                     return []
                 for _ in range(n):
